@@ -167,13 +167,16 @@ Definition safe_defaultb (d : dflt) : bool :=
   | _ => true
   end.
 
-(* both models on one lattice point: "unsafe" outside the domain of the
-   refinement theorem, "same:<outcome>" when they agree, "DIFF:..." otherwise *)
-Definition run_both (f : option string) (mn mx emn emx mu : option Z) (d : option (option Z)) : string :=
+(* both models on one lattice point, for the correspondence run:
+   "<outcome of choose_integer>|<tie>" where <tie> is "unsafe" outside the domain
+   of the refinement theorem, "same" when choose_integer_Z agrees, "DIFF:<its
+   outcome>" otherwise *)
+Definition run_tie (f : option string) (mn mx emn emx mu : option Z) (d : option (option Z)) : string :=
   let b := mkb mn mx emn emx mu in
   let dd := mkd d in
-  if safe_boundsb b && safe_defaultb dd then
-    let o1 := show_outcome (choose_integer f b dd) in
-    let o2 := show_outcome (choose_integer_Z f (zb_of b) (zd_of dd)) in
-    if String.eqb o1 o2 then "same:" ++ o1 else "DIFF:" ++ o1 ++ "/" ++ o2
-  else "unsafe".
+  let o1 := show_outcome (choose_integer f b dd) in
+  o1 ++ "|" ++
+  (if safe_boundsb b && safe_defaultb dd then
+     let o2 := show_outcome (choose_integer_Z f (zb_of b) (zd_of dd)) in
+     if String.eqb o1 o2 then "same" else "DIFF:" ++ o2
+   else "unsafe").
